@@ -17,7 +17,7 @@ from ..cfg import cfg_of
 from ..dataflow import Resolver as ExprResolver
 from ..dataflow import expr_leaves, flow_of
 from ..engine import Context, Reporter
-from ..model import AnalysisError, FuncInfo, norm_text, walk_no_nested
+from ..model import AnalysisError, FuncInfo, dotted, norm_text, walk_no_nested
 from ..records import discover_sites
 from ..util import call_arg, calls_in_node, conds_holding_at, unparse
 
@@ -169,7 +169,191 @@ def rule_c(ctx: Context, R: Reporter):
     R.floor("C11.c", "joint replacement sites", n, 1)
 
 
+class _CountUndecided(Exception):
+    pass
+
+
+def _count_eval(ctx: Context, fi: FuncInfo, flow, e: ast.expr, at, depth: int = 0) -> Tuple[int, int]:
+    """Value of a counting expression as (coefficient of #finite rows, coefficient
+    of #infinite rows) of the prior batch; (1, 1) is the batch size."""
+    if depth > 12:
+        raise _CountUndecided("depth")
+
+    def mask_kind(m: ast.expr, at2) -> Optional[str]:
+        """'I' for the -inf mask, 'F' for its complement."""
+        if isinstance(m, ast.UnaryOp) and isinstance(m.op, (ast.Invert, ast.Not)):
+            k = mask_kind(m.operand, at2)
+            return {"I": "F", "F": "I"}.get(k)
+        if isinstance(m, ast.Call):
+            nm = ctx.res.external_name(fi, m) or ""
+            if nm in ("numpy.isinf", "numpy.isneginf"):
+                return "I"
+            if nm == "numpy.isfinite":
+                return "F"
+            if nm == "numpy.logical_not" and m.args:
+                return {"I": "F", "F": "I"}.get(mask_kind(m.args[0], at2))
+        if isinstance(m, ast.Name):
+            ds = flow.reaching(at2, m.id)
+            if len(ds) == 1 and ds[0].kind == "assign" and ds[0].value is not None and not ds[0].path:
+                return mask_kind(ds[0].value, ds[0].node)
+        if isinstance(m, ast.Compare) and len(m.ops) == 1 and isinstance(m.ops[0], ast.Eq) and "inf" in norm_text(m.comparators[0]):
+            return "I"
+        return None
+
+    def rows_of(x: ast.expr, at2, d2=0) -> Tuple[int, int]:
+        """Number of rows of an array-valued expression."""
+        if d2 > 12:
+            raise _CountUndecided("depth")
+        if isinstance(x, ast.Subscript):
+            k = mask_kind(x.slice, at2)
+            if k is not None:
+                base = rows_of(x.value, at2, d2 + 1)
+                if base != (1, 1):
+                    raise _CountUndecided("mask applied to a subset")
+                return (1, 0) if k == "F" else (0, 1)
+            raise _CountUndecided(f"selection `{unparse(x)[:40]}`")
+        if isinstance(x, ast.Call):
+            nm = ctx.res.external_name(fi, x) or ""
+            if nm == "numpy.arange" and len(x.args) == 1:
+                return _count_eval(ctx, fi, flow, x.args[0], at2, depth + 1)
+            if nm in ("numpy.flatnonzero", "numpy.argwhere") and x.args:
+                k = mask_kind(x.args[0], at2)
+                if k:
+                    return (1, 0) if k == "F" else (0, 1)
+            if nm in ("numpy.asarray", "numpy.array", "numpy.copy") and x.args:
+                return rows_of(x.args[0], at2, d2 + 1)
+            if nm == "numpy.random.rand" and x.args:
+                return _count_eval(ctx, fi, flow, x.args[0], at2, depth + 1)
+            # the likelihood wrapper / prior transform evaluated on the batch: one row per point
+            raise _CountUndecided(f"rows of `{unparse(x)[:40]}`")
+        if isinstance(x, ast.Name):
+            ds = flow.reaching(at2, x.id)
+            vals = set()
+            for d in ds:
+                if d.kind == "assign" and d.value is not None:
+                    if d.path:
+                        # (logl, blobs) = wrapper(x): rows of the argument
+                        if isinstance(d.value, ast.Call) and d.value.args:
+                            vals.add(rows_of(d.value.args[0], d.node, d2 + 1))
+                            continue
+                        raise _CountUndecided(f"rows of `{x.id}`")
+                    if isinstance(d.value, ast.Call) and (ctx.res.external_name(fi, d.value) or "") == "numpy.array" and d.value.args and isinstance(d.value.args[0], ast.ListComp):
+                        it = d.value.args[0].generators[0].iter
+                        if isinstance(it, ast.Call) and dotted(it.func) == "range" and len(it.args) == 1:
+                            vals.add(_count_eval(ctx, fi, flow, it.args[0], d.node, depth + 1))
+                            continue
+                    vals.add(rows_of(d.value, d.node, d2 + 1))
+                elif d.kind in ("aug", "substore"):
+                    continue
+                else:
+                    raise _CountUndecided(f"rows of `{x.id}`")
+            if len(vals) == 1:
+                return vals.pop()
+            raise _CountUndecided(f"rows of `{x.id}` ({len(vals)} values)")
+        raise _CountUndecided(f"rows of `{unparse(x)[:40]}`")
+
+    if isinstance(e, ast.Constant) and isinstance(e.value, (int, float)) and e.value == 0:
+        return (0, 0)
+    if isinstance(e, ast.Attribute) and norm_text(e) == "self.n_particles":
+        return (1, 1)
+    if isinstance(e, ast.Attribute) and e.attr == "size":
+        return rows_of(e.value, at)
+    if isinstance(e, ast.Subscript) and isinstance(e.value, ast.Attribute) and e.value.attr == "shape" and const_value_(e.slice) == 0:
+        return rows_of(e.value.value, at)
+    if isinstance(e, ast.BinOp) and isinstance(e.op, (ast.Add, ast.Sub)):
+        l = _count_eval(ctx, fi, flow, e.left, at, depth + 1)
+        r = _count_eval(ctx, fi, flow, e.right, at, depth + 1)
+        s = 1 if isinstance(e.op, ast.Add) else -1
+        return (l[0] + s * r[0], l[1] + s * r[1])
+    if isinstance(e, ast.Call):
+        nm = ctx.res.external_name(fi, e) or dotted(e.func)
+        if nm in ("builtins.len", "len") and e.args:
+            return rows_of(e.args[0], at)
+        if nm in ("builtins.int", "builtins.float", "int", "float") and e.args:
+            return _count_eval(ctx, fi, flow, e.args[0], at, depth + 1)
+        if nm in ("numpy.count_nonzero", "numpy.sum", "builtins.sum") and e.args:
+            # evaluated on a mask *variable* computed before the in-place replacement
+            k = mask_kind(e.args[0], at) if isinstance(e.args[0], (ast.Name, ast.UnaryOp)) and not any(isinstance(x, ast.Call) for x in ast.walk(e.args[0])) else None
+            if k:
+                return (1, 0) if k == "F" else (0, 1)
+            raise _CountUndecided(f"count of `{unparse(e.args[0])[:40]}`")
+        if isinstance(e.func, ast.Attribute) and e.func.attr == "sum" and not e.args:
+            k = mask_kind(e.func.value, at) if isinstance(e.func.value, (ast.Name, ast.UnaryOp)) and not any(isinstance(x, ast.Call) for x in ast.walk(e.func.value)) else None
+            if k:
+                return (1, 0) if k == "F" else (0, 1)
+        raise _CountUndecided(f"`{unparse(e)[:40]}`")
+    if isinstance(e, ast.Name):
+        ds = flow.reaching(at, e.id)
+        if len(ds) == 1 and ds[0].kind == "assign" and ds[0].value is not None and not ds[0].path:
+            return _count_eval(ctx, fi, flow, ds[0].value, ds[0].node, depth + 1)
+        raise _CountUndecided(f"`{e.id}` has {len(ds)} definitions")
+    raise _CountUndecided(f"`{unparse(e)[:40]}`")
+
+
+def const_value_(e):
+    return e.value if isinstance(e, ast.Constant) else None
+
+
+def rule_d(ctx: Context, R: Reporter):
+    """C11.d  the recorded fraction is (#finite rows of the batch) / (batch size):
+    the numerator and denominator of the ratio inside the logarithm are evaluated
+    in a small count algebra over F = #finite, I = #infinite, N = F + I."""
+    funcs = prior_draw_functions(ctx)
+    n = 0
+    for fi in funcs:
+        flow = flow_of(fi.node)
+        for a in ctx.state.in_func(fi, include_nested=False):
+            if a.mode != "write" or a.key != "logz":
+                continue
+            wn = flow.node_containing(a.call)
+            # find log(<num> / <den>) through plain local names
+            v = a.value
+            at = wn
+            hops = 0
+            while isinstance(v, ast.Name) and hops < 6:
+                ds = flow.reaching(at, v.id)
+                if len(ds) != 1 or ds[0].value is None or ds[0].path:
+                    break
+                v, at = ds[0].value, ds[0].node
+                hops += 1
+            logs = [c for c in ast.walk(v) if isinstance(c, ast.Call) and (ctx.res.external_name(fi, c) or "") in ("numpy.log", "math.log")] if isinstance(v, ast.AST) else []
+            ratio = None
+            for lg in logs:
+                arg = lg.args[0] if lg.args else None
+                hops = 0
+                at2 = at
+                while isinstance(arg, ast.Name) and hops < 6:
+                    ds = flow.reaching(at2, arg.id)
+                    if len(ds) != 1 or ds[0].value is None or ds[0].path:
+                        break
+                    arg, at2 = ds[0].value, ds[0].node
+                    hops += 1
+                if isinstance(arg, ast.BinOp) and isinstance(arg.op, ast.Div):
+                    ratio = (arg, at2)
+            if ratio is None:
+                continue  # C11.a reports a value that is not the log of a ratio
+            n += 1
+            arg, at2 = ratio
+            try:
+                num = _count_eval(ctx, fi, flow, arg.left, at2)
+                den = _count_eval(ctx, fi, flow, arg.right, at2)
+            except _CountUndecided as ex:
+                raise AnalysisError(f"C11.d: cannot evaluate the counts in `{unparse(arg)[:60]}`: {ex}")
+
+            def show(c):
+                return f"{c[0]}*#finite + {c[1]}*#infinite"
+
+            R.check("C11.d", "the numerator of the recorded fraction is the number of finite draws of the batch", num == (1, 0), fi, arg,
+                    msg=f"{fi.short}: numerator `{unparse(arg.left)[:50]}` evaluates to {show(num)}, not #finite: the recorded evidence is not the log of the supported fraction",
+                    witness={"numerator": show(num), "denominator": show(den)}, key="fraction-numerator")
+            R.check("C11.d", "the denominator of the recorded fraction is the batch size", den == (1, 1), fi, arg,
+                    msg=f"{fi.short}: denominator `{unparse(arg.right)[:50]}` evaluates to {show(den)}, not the batch size #finite + #infinite",
+                    witness={"numerator": show(num), "denominator": show(den)}, key="fraction-denominator")
+    R.floor("C11.d", "recorded fractions evaluated", n, 1)
+
+
 def run(ctx: Context, R: Reporter):
+    R.guard(rule_d, ctx, R)
     R.guard(rule_a, ctx, R)
     R.guard(rule_b, ctx, R)
     R.guard(rule_c, ctx, R)
@@ -185,5 +369,9 @@ def variants():
         Variant("a-constant", "bad", replace_stmt(mu, "Mutator.run", "logz = np.log(n_finite / n_total)", "logz = 0.0"), ["C11.a"]),
         Variant("c-source-from-all", "bad", replace_expr(mu, "Mutator.run", "np.random.choice(finite_idx, size=len(infinite_idx), replace=True)", "np.random.choice(all_idx, size=len(infinite_idx), replace=True)"), ["C11.c"], quick=True),
         Variant("c-target-finite", "bad", replace_expr(mu, "Mutator.run", "all_idx[inf_logl_mask]", "all_idx[~inf_logl_mask]", 0), ["C11.c", "C11.b"]),
+        Variant("d-count-infinite", "bad", replace_stmt(mu, "Mutator.run", "n_finite = len(finite_idx)", "n_finite = len(logl) - np.count_nonzero(~inf_logl_mask)"), ["C11.d"], quick=True),
+        Variant("d-denominator-finite", "bad", replace_stmt(mu, "Mutator.run", "n_total = len(logl)", "n_total = len(finite_idx)"), ["C11.d"]),
+        Variant("d-count-by-mask-benign", "benign", replace_stmt(mu, "Mutator.run", "n_finite = len(finite_idx)", "n_finite = np.count_nonzero(~inf_logl_mask)")),
+        Variant("d-count-by-difference-benign", "benign", replace_stmt(mu, "Mutator.run", "n_finite = len(finite_idx)", "n_finite = len(logl) - len(infinite_idx)")),
         Variant("benign-rename", "benign", alpha_rename(mu, "Mutator.run", "n_finite", "n_ok"), quick=True),
     ]
